@@ -161,9 +161,18 @@ func runSelection(t *testing.T, tape *kernel.Tape) *kernel.Result {
 	defMT := registryTypes[tape.Choose(3, "default-mt")]
 	status := []int{200, 201, 204, 400, 404, 418, 500, 503}[tape.Choose(8, "status")]
 	body := tape.Bytes(tape.Choose(300, "blen"), []byte("ab\x00\xff\n{}"), "bbyte")
+	emptyBody := tape.Bool(8, "empty-response-body")
+	if emptyBody {
+		body = nil // Content-Length: 0, http.NoBody: the Content-Type still decides which consumer the reader is given
+	}
 	hdrs := http.Header{}
 	if sp.header != "" {
 		hdrs.Set("Content-Type", sp.header)
+		if sp.media != "" && tape.Bool(8, "second-content-type-line") {
+			// a second, different Content-Type line (a proxy added its own): the one GetHeader reports is the one that counts
+			hdrs.Add("Content-Type", registryTypes[tape.Choose(len(registryTypes), "second-ct")]+"; from=proxy")
+			env.Fault("second-content-type-line")
+		}
 	}
 	nh := tape.Choose(3, "nhdr")
 	for i := 0; i < nh; i++ {
@@ -216,7 +225,7 @@ func runSelection(t *testing.T, tape *kernel.Tape) *kernel.Result {
 			h := hdrs.Clone()
 			h.Set("X-Served-By", tag)
 			return &http.Response{StatusCode: status, Status: fmt.Sprintf("%d %s", status, http.StatusText(status)), Header: h,
-				Body: &ctxBody{ctx: req.Context(), r: bytes.NewReader(body)}, ContentLength: int64(len(body)), Request: req, Proto: "HTTP/1.1", ProtoMajor: 1, ProtoMinor: 1}, nil
+				Body: respBody(req.Context(), body, emptyBody), ContentLength: int64(len(body)), Request: req, Proto: "HTTP/1.1", ProtoMajor: 1, ProtoMinor: 1}, nil
 		})
 	}
 	// how the Runtime came to be, and through which door the call goes in
@@ -274,6 +283,9 @@ func runSelection(t *testing.T, tape *kernel.Tape) *kernel.Result {
 				}
 			}
 			gotHdr["X-Served-By"] = r.GetHeaders("X-Served-By")
+			if never := r.GetHeaders("X-Never-Sent"); len(never) != 0 {
+				gotHdr["X-Never-Sent"] = never
+			}
 			return "ok", nil
 		})}
 	if opClient {
@@ -430,6 +442,9 @@ func runSelection(t *testing.T, tape *kernel.Tape) *kernel.Result {
 		}
 		if !bytes.Equal(gotBody, body) {
 			env.Violate("C13/response-altered", "body", "reader saw %d body bytes, server sent %d", len(gotBody), len(body))
+		}
+		if never, seen := gotHdr["X-Never-Sent"]; seen {
+			env.Violate("C13/response-altered", "header:absent-header-has-values", "a header the server never sent reads as %q", never)
 		}
 		for name, vals := range hdrs {
 			if fmt.Sprint(gotHdr[name]) != fmt.Sprint(vals) {
@@ -685,3 +700,10 @@ type quietLogger struct{}
 
 func (quietLogger) Printf(string, ...interface{}) {}
 func (quietLogger) Debugf(string, ...interface{}) {}
+
+func respBody(ctx context.Context, body []byte, empty bool) io.ReadCloser {
+	if empty {
+		return http.NoBody
+	}
+	return &ctxBody{ctx: ctx, r: bytes.NewReader(body)}
+}
